@@ -20,6 +20,7 @@ ACall(f, args) == [k |-> "call", f |-> f, args |-> args, named |-> <<>>, star |-
 ACallN(f, args, named) == [k |-> "call", f |-> f, args |-> args, named |-> named, star |-> ABSENT, starstar |-> ABSENT, line |-> 0]
 ANamed(n, ncp, e) == [n |-> n, ncp |-> ncp, e |-> e]
 AMCall(o, name, args) == [k |-> "mcall", obj |-> o, name |-> name, args |-> args, named |-> <<>>, line |-> 0]
+ADot(e, name, ncp) == [k |-> "dot", e |-> e, name |-> name, ncp |-> ncp, line |-> 0]
 ALambda(params, body) == [k |-> "lambda", params |-> params, body |-> body, line |-> 0]
 ACompr(elt, clauses) == [k |-> "compr", elt |-> elt, clauses |-> clauses, line |-> 0]
 ADictCompr(key, val, clauses) == [k |-> "dictcompr", key |-> key, val |-> val, clauses |-> clauses, line |-> 0]
